@@ -85,6 +85,13 @@ class Chart:
   def _react(self, i, chart, s):
     signals, rs = self.signals, self.rs
     nf = self.none_for.get(i, ())
+    if "all" in nf:
+      # a malformed handler that returns no status for anything (C24)
+      if s == self.SIG:
+        self.log.append(("of", i))
+      elif s == signals.ENTRY_SIGNAL:
+        self.log.append(("en", i))
+      return None
     if s == signals.ENTRY_SIGNAL:
       if not (self.hx & HX_ENTRY):
         self.log.append(("en", i))
